@@ -382,7 +382,15 @@ fn log_setup(state: &mut State<RealP>) -> ExecResult<()> {
     })
 }
 
+/// A set-up function that also supplies the generator (a fixed seed, another backend): it overrides the runner's.
+fn log_setup_own_rng(state: &mut State<RealP>) -> ExecResult<()> {
+    state.insert(Random::with_rng::<rand_chacha::ChaCha8Rng>(4242));
+    log_setup(state)
+}
+
 fn batch_oracle(c: &BatchCase) -> Result<(), Failure> {
+    let own = c.runs % 3 == 2;
+    let setup: fn(&mut State<RealP>) -> ExecResult<()> = if own { log_setup_own_rng } else { log_setup };
     let cfg = if c.pso {
         match crate::fixtures::run::build_real(&crate::fixtures::run::Tpl::Pso { n: 2 + c.conf.pop % 5, w0: 0.9, w1: 0.4, c1: 1.5, c2: 1.5, vmax: 1.0 }, c.conf.iters.max(2)) {
             Some(Ok(cfg)) => cfg,
@@ -405,7 +413,7 @@ fn batch_oracle(c: &BatchCase) -> Result<(), Failure> {
     for t in [c.threads.max(1) as usize, 1usize] {
         let dir = format!("{}/target/scratch/{}-batch-{}", crate::engine::VERIF_DIR, std::process::id(), t);
         let _ = std::fs::remove_dir_all(&dir);
-        let r = pool(t).install(|| catch(|| par_experiment(&cfg, log_setup, &problems, runs, &dir, true)));
+        let r = pool(t).install(|| catch(|| par_experiment(&cfg, setup, &problems, runs, &dir, true)));
         match r {
             Ok(Ok(())) => {}
             Ok(Err(e)) => {
@@ -453,7 +461,7 @@ fn batch_oracle(c: &BatchCase) -> Result<(), Failure> {
             let st = cfg
                 .optimize_with(p, |s| {
                     s.insert(Random::new(r));
-                    log_setup(s)
+                    setup(s)
                 })
                 .map_err(|e| Failure::new("C08 direct run fails", format!("{at}: {e:#}")))?;
             let path = format!("{}/target/scratch/{}-direct.cbor", crate::engine::VERIF_DIR, std::process::id());
@@ -504,7 +512,7 @@ fn det_strategy(max_iters: u32) -> impl Strategy<Value = DetCase> {
 }
 
 pub fn run_all(ctx: &mut Ctx, replay: Option<&Path>) {
-    ctx.rule("determinism: case = (template with valid parameters and instance, or a generated configuration of shipped components; seed; thread-pool size in {1,2,3,4,8,16}; latency-jitter stream); the digest (every population level with solutions bit-exact and objectives, best individual, Evaluations, Iterations, serialised log) of a sequential unjittered run is compared with: a second sequential run, a sequential run with jittered objective latency, the parallel evaluator in the chosen pool and in a 16-thread pool with different jitter, the cloned configuration, a clone of the clone run in parallel, and the same configuration object after it has been run on another instance of the problem type (other dimension and domain / matrix); generated configurations optionally contain one of the four diversity measures (their state is part of the digest) and populations of 130-139 individuals; non-trivial = a parallel variant in which objective calls actually completed out of call order (measured by the instrumented objective). random: Random::new(seed) twice gives identical streams and identical children recursively (depth <= 3), different seeds give different 16-word prefixes, config() reports name/seed, children keep the generator type, optimize_with keeps a user-supplied generator and provides one otherwise. batch: par_experiment (generated configurations or the shipped particle-swarm template) over 0-8 runs, 1-3 named problems, pools of 1..16 threads: exact file set (configuration.ron + name_run.cbor), identical files across pool sizes, every log equal to a direct optimize_with(Random::new(run)); distinct by case");
+    ctx.rule("determinism: case = (template with valid parameters and instance, or a generated configuration of shipped components; seed; thread-pool size in {1,2,3,4,8,16}; latency-jitter stream); the digest (every population level with solutions bit-exact and objectives, best individual, Evaluations, Iterations, serialised log) of a sequential unjittered run is compared with: a second sequential run, a sequential run with jittered objective latency, the parallel evaluator in the chosen pool and in a 16-thread pool with different jitter, the cloned configuration, a clone of the clone run in parallel, and the same configuration object after it has been run on another instance of the problem type (other dimension and domain / matrix); generated configurations optionally contain one of the four diversity measures (their state is part of the digest) and populations of 130-139 individuals; non-trivial = a parallel variant in which objective calls actually completed out of call order (measured by the instrumented objective). random: Random::new(seed) twice gives identical streams and identical children recursively (depth <= 3), different seeds give different 16-word prefixes, config() reports name/seed, children keep the generator type, optimize_with keeps a user-supplied generator and provides one otherwise. batch: par_experiment (generated configurations or the shipped particle-swarm template) over 0-8 runs, 1-3 named problems, pools of 1..16 threads: exact file set (configuration.ron + name_run.cbor), identical files across pool sizes, every log equal to a direct optimize_with(Random::new(run)) followed by the same set-up function (which, in a third of the cases, inserts a generator of its own that must win); distinct by case");
     ctx.assume("rayon's scheduler is not owned by the harness: pool sizes and pseudo-random objective latencies perturb completion order (measured), they do not enumerate interleavings");
     let d = DetCheck;
     let r = RngCheck;
